@@ -310,9 +310,9 @@ def _work_dir() -> str:
 
 
 PARTS: list[Part] = [
-    hyp_part("mutations", strat_mutations, check_mutation, {"quick": 500, "thorough": 20000},
+    hyp_part("mutations", strat_mutations, check_mutation, {"quick": 900, "thorough": 20000},
              {"quick": 6, "thorough": 16}),
-    hyp_part("assembled", strat_assembled, check_assembled, {"quick": 500, "thorough": 20000},
+    hyp_part("assembled", strat_assembled, check_assembled, {"quick": 900, "thorough": 20000},
              {"quick": 4, "thorough": 16}),
     custom_part("atheris", drive_atheris, check_mutation, {"quick": 4, "thorough": 16}),
 ]
